@@ -33,6 +33,8 @@ import (
 //	outage [of|k] ms  close that link and refuse every connection attempt (close it during its handshake) for ms,
 //	                  counted from the client's first attempt; then accept again on the same address with the same key
 //	pause ms
+//	stall [of|k] ms   close that link; the client's next connection attempt is accepted and its handshake read, but the
+//	                  acknowledgement is held back for ms
 //	authnonce [of|k]  (authenticated connections) send tcp.authentificationNonce once more on that link
 //
 // "cut" (1..6) on ans / dup / unk / other writes the frame in two pieces with a pause of "ms": after 1, 2, 3 bytes of the size
@@ -56,6 +58,7 @@ type Script struct {
 	Steps     []Step `json:"steps"`
 	BgCallers int    `json:"bg_callers"` // additional callers whose queries the server answers at once
 	BgCalls   int    `json:"bg_calls"`   // calls of each of them, one after the other
+	BgGapMs   int    `json:"bg_gap_ms"`  // pause between them
 	Followup  int    `json:"followup"`   // rounds of 2*NConns calls after everything has recovered ("later calls succeed")
 	Mode      string `json:"mode"`       // "traced" (hooks installed, trace written) | "bare" (no hook: race detector and assertions only)
 	Jitter    bool   `json:"jitter"`
@@ -75,6 +78,9 @@ type Script struct {
 	// SplitEvery / SplitMs: the server writes every SplitEvery-th packet in two pieces (cut position cycling through the frame's regions)
 	SplitEvery int `json:"split_every"`
 	SplitMs    int `json:"split_ms"`
+	// Eager: every handshake acknowledgement (initial connections and reconnections) is followed at once by an unsolicited
+	// packet: 1 = in the same write, 2 = in a second write without a pause
+	Eager int `json:"eager"`
 }
 
 type callRes struct {
@@ -120,7 +126,9 @@ func Drive(in string, index int, w *ev.Writer, seed int64, tracePath string) err
 	if err != nil {
 		return err
 	}
-	sv.splitEvery, sv.splitMs, sv.authMode = sc.SplitEvery, sc.SplitMs, sc.Auth
+	sv.mu.Lock()
+	sv.splitEvery, sv.splitMs, sv.authMode, sv.eager = sc.SplitEvery, sc.SplitMs, sc.Auth, sc.Eager
+	sv.mu.Unlock()
 	ctx := context.Background()
 	var authKeys []ed25519.PrivateKey
 	if sc.Auth {
@@ -196,6 +204,9 @@ func Drive(in string, index int, w *ev.Writer, seed int64, tracePath string) err
 			defer wg.Done()
 			<-startGate
 			for j := 0; j < sc.BgCalls; j++ {
+				if j > 0 && sc.BgGapMs > 0 {
+					time.Sleep(time.Duration(sc.BgGapMs) * time.Millisecond)
+				}
 				doCall(first+j, false)
 			}
 		}(first)
@@ -241,6 +252,12 @@ func Drive(in string, index int, w *ev.Writer, seed int64, tracePath string) err
 		}
 	}
 	bound := 2*pingPeriod + time.Duration(nDrops)*retrySleep + 4*time.Second
+	for _, st := range sc.Steps {
+		if st.A == "stall" {
+			nDrops++
+			bound += time.Duration(st.Ms) * time.Millisecond
+		}
+	}
 	if sc.SilenceMs > 0 {
 		bound += silencePerio
 	}
@@ -483,6 +500,13 @@ func (sv *server) run(sc *Script, timeout time.Duration) {
 			sv.mu.Lock()
 			sv.hsdrops++
 			sv.mu.Unlock()
+		case "stall":
+			sv.mu.Lock()
+			sv.stallFor = time.Duration(st.Ms) * time.Millisecond
+			sv.mu.Unlock()
+			if l := resolve(st); l != nil {
+				sv.closeLink(l, true)
+			}
 		case "outage":
 			sv.mu.Lock()
 			sv.outageFor = time.Duration(st.Ms) * time.Millisecond
